@@ -553,7 +553,7 @@ def inline_stable_aliases(tree: ast.AST) -> int:
             if isinstance(st, ast.Assign) and len(st.targets) == 1 and isinstance(st.targets[0], ast.Name) and \
                     stores.get(st.targets[0].id) == 1 and st.targets[0].id not in params and isinstance(st.value, ast.Attribute):
                 ch = attr_chain(st.value)
-                if ch and ch[0] == "self" and 2 <= len(ch) <= 3 and not any(a in unstable or "[" in a for a in ch[1:]):
+                if ch and ch[0] == "self" and 2 <= len(ch) <= 4 and not any(a in unstable or "[" in a for a in ch[1:]):
                     alias[st.targets[0].id] = st.value
         if not alias:
             continue
